@@ -10,6 +10,7 @@ import (
 	"context"
 	"fmt"
 	"math/rand"
+	"net"
 	"net/http"
 	"strings"
 	"sync"
@@ -47,12 +48,14 @@ type System struct {
 	Log     []Event
 	Kills   int
 	live    []*bigmachine.Machine
+	used    map[string]bool
+	Reused  int // replacement machines that came up on a killed machine's address (and were replaced)
 	enabled bool
 }
 
 // New creates a system with millisecond-scale keepalives.
 func New(machineprocs int) *System {
-	s := &System{System: testsystem.New(), counts: map[string]int{}}
+	s := &System{System: testsystem.New(), counts: map[string]int{}, used: map[string]bool{}}
 	s.Machineprocs = machineprocs
 	s.KeepalivePeriod = 100 * time.Millisecond
 	s.KeepaliveTimeout = 200 * time.Millisecond
@@ -125,6 +128,21 @@ func (s *System) Fired() int {
 func (s *System) Start(ctx context.Context, count int) ([]*bigmachine.Machine, error) {
 	ms, err := s.System.Start(ctx, count)
 	s.mu.Lock()
+	for i := range ms {
+		// never hand out an address a killed machine had (see killAndReserve)
+		for tries := 0; s.used[ms[i].Addr] && tries < 20; tries++ {
+			s.mu.Unlock()
+			s.System.Kill(ms[i])
+			repl, rerr := s.System.Start(ctx, 1)
+			s.mu.Lock()
+			s.Reused++
+			if rerr != nil || len(repl) != 1 {
+				break
+			}
+			ms[i] = repl[0]
+		}
+		s.used[ms[i].Addr] = true
+	}
 	s.live = append(s.live, ms...)
 	s.mu.Unlock()
 	return ms, err
@@ -168,7 +186,32 @@ func (s *System) Kill(m *bigmachine.Machine) bool {
 	if m == nil {
 		return false
 	}
-	return s.System.Kill(m)
+	return s.killAndReserve(m)
+}
+
+// killAndReserve kills m and then keeps its TCP address occupied for the rest
+// of the process's life (connections are accepted and closed at once). Without
+// this the test system can hand the port of a killed machine to a replacement
+// machine: the driver's record of the dead machine then talks to a fresh
+// worker that has none of its compiled invocations or task outputs - an
+// artifact of running all "machines" on one host, not a loss scenario.
+func (s *System) killAndReserve(m *bigmachine.Machine) bool {
+	ok := s.System.Kill(m)
+	if ok {
+		addr := strings.TrimPrefix(strings.TrimPrefix(m.Addr, "http://"), "https://")
+		if l, err := net.Listen("tcp", addr); err == nil {
+			go func() {
+				for {
+					c, err := l.Accept()
+					if err != nil {
+						return
+					}
+					c.Close()
+				}
+			}()
+		}
+	}
+	return ok
 }
 
 // kill kills m. The test system's Kill waits for the victim's in-flight
@@ -186,7 +229,7 @@ func (s *System) kill(m *bigmachine.Machine) string {
 	}
 	s.mu.Unlock()
 	done := make(chan bool, 1)
-	go func() { done <- s.System.Kill(m) }()
+	go func() { done <- s.killAndReserve(m) }()
 	select {
 	case ok := <-done:
 		if ok {
